@@ -275,7 +275,7 @@ impl Property for C08 {
             .boxed()
     }
     fn cases(tier: Tier) -> u32 {
-        tier.pick(5_000, 80_000)
+        tier.pick(30_000, 150_000)
     }
     fn exhaustive(_tier: Tier, sink: &mut dyn FnMut(Scenario)) -> Vec<String> {
         // every subset of terminals having / lacking data (own or partner), one round, for each device shape
